@@ -122,6 +122,8 @@ def run(ck):
                 by_cause[q['cause']].append(q)
             else:
                 torun.append(q)              # refused by the front end: the drivers must stop (all of them are run)
+        for q in items:
+            q['run'] = False
         for cause, qs in sorted(by_cause.items(), key=lambda kv: str(kv[0])):
             ck.extra['root_causes'][str(cause)] += len(qs)
             if cause is not None and ('c05:' + cause) in known_keys:
@@ -132,6 +134,11 @@ def run(ck):
                 # (later phase) -- every one is run (quick tier: at most `cap` per unchecked place, drawn at random)
                 ck.rng.shuffle(qs)
                 torun += qs if ck.thorough else qs[:cap]
+        for q in torun:
+            q['run'] = True
+        for q in items:
+            if not q['run']:
+                ck.count((q['rule'], q['sexp']), False)      # judged by both type checkers only (open finding, not in the sample)
         def onem(t):
             j, q = t
             return q, T.run_three(b, wd, 'm%d' % j, q['src'])
